@@ -567,9 +567,10 @@ func moreE2EOracles(r *e2e, t *tracker) []Oracle {
 		json.Unmarshal([]byte(r.sc.Extra["docs"]), &c19.plants)
 	}
 	var extra []Oracle
+	c16 := &oC16{r: r}
+	extra = append(extra, c16)
 	if r.sc.Extra != nil && r.sc.Extra["footprint"] != "" {
-		r.c16 = &oC16{r: r}
-		extra = append(extra, r.c16)
+		r.c16 = c16 // also sample the idle footprint before the stop-at-idle epilogue
 	}
 	return append(extra, []Oracle{
 		c19,
